@@ -120,18 +120,17 @@ func (dss *dataStoreSet) getDb(index int, create bool) (ds *dataStore, valid boo
 	return
 }
 
-func (dss *dataStoreSet) flushDb(index int) {
+// returns the existing data stores, ordered by database index
+func (dss *dataStoreSet) allDbs() (list []*dataStore) {
 	dss.mu.Lock()
 	defer dss.mu.Unlock()
 
-	delete(dss.dbs, index)
-}
-
-func (dss *dataStoreSet) flushAll() {
-	dss.mu.Lock()
-	defer dss.mu.Unlock()
-
-	dss.dbs = map[int]*dataStore{}
+	for index := 0; index < 16; index++ {
+		if ds, exists := dss.dbs[index]; exists {
+			list = append(list, ds)
+		}
+	}
+	return
 }
 
 func (dss *dataStoreSet) getUser(userName string) (dsu *dataStoreUser, exists bool) {
